@@ -156,6 +156,36 @@ Proof.
   rewrite <- E. transitivity (ew x - (ew x - ew (var_slc (p:=p) (npub s + 1)))); [apply eq_feq; ring|]. rewrite H. apply eq_feq. ring.
 Qed.
 
+Lemma assert_rel_s c rel d x y s (Q : unit -> gst -> Prop) : Gok s ->
+  (forall s', same s s' -> (exists v, 0 <= v < 2 ^ Z.of_nat (nbits c) /\ ew (d x y) == v) -> Q tt s') -> wps (assert_rel c rel d x y) s Q.
+Proof. intros G HQ. unfold assert_rel, get, raise_if. cbn [bind wps]. apply assert_positive_s; [exact G|exact HQ]. Qed.
+Lemma assert_eq_s x y s (Q : unit -> gst -> Prop) : Gok s -> (forall s', same s s' -> ew x == ew y -> Q tt s') -> wps (assert_eq x y) s Q.
+Proof.
+  intros G HQ. unfold assert_eq, get, raise_if. cbn [bind wps]. apply assert_zero_s; [exact G|]. rewrite ew_sub. intros s' S H. apply HQ; [exact S|].
+  transitivity (ew x - ew y + ew y); [apply eq_feq; ring|]. rewrite H. apply eq_feq. ring.
+Qed.
+(* the constant-one object of the state (LinComb.ONE: the guard inside a guarded region) evaluates to 1 *)
+Definition Oone (s : gst) : Prop := ew (one s) == 1.
+Lemma assert_nonzero_s x s (Q : unit -> gst -> Prop) : Gok s -> Oone s -> (forall s', same s s' -> ~ ew x == 0 -> Q tt s') -> wps (assert_nonzero x) s Q.
+Proof.
+  intros G O HQ. unfold assert_nonzero, get, raise_if, privval. cbn [bind wps]. apply add_constraint_s; [exact G|]. intros s' S H. apply HQ; [exact S|].
+  unfold Oone in O. rewrite O in H. apply (assert_nonzero_sound p Hp _ _ H).
+Qed.
+Lemma assert_ne_s x y s (Q : unit -> gst -> Prop) : Gok s -> Oone s -> (forall s', same s s' -> ~ ew x == ew y -> Q tt s') -> wps (assert_ne x y) s Q.
+Proof.
+  intros G O HQ. unfold assert_ne, get, raise_if. cbn [bind wps]. apply assert_nonzero_s; [exact G|exact O|]. rewrite ew_sub. intros s' S H. apply HQ; [exact S|].
+  intros E. apply H. rewrite E. apply eq_feq. ring.
+Qed.
+Lemma assert_range_s c x lo hi s (Q : unit -> gst -> Prop) : Gok s ->
+  (forall s', same s s' -> (exists v, 0 <= v < 2 ^ Z.of_nat (nbits c) /\ ew x - ew lo == v) -> (exists v, 0 <= v < 2 ^ Z.of_nat (nbits c) /\ ew hi - ew x - 1 == v) -> Q tt s') ->
+  wps (assert_range c x lo hi) s Q.
+Proof.
+  intros G HQ. unfold assert_range, get, raise_if. cbn [bind wps]. apply wps_bind. apply assert_positive_s; [exact G|]. intros s1 S1 H1.
+  apply assert_positive_s; [exact (Gok_same _ _ S1 G)|]. intros s2 S2 H2. apply HQ; [unfold same in *; congruence| |].
+  - rewrite ew_sub in H1. exact H1.
+  - rewrite ew_subc, ew_sub in H2. exact H2.
+Qed.
+
 (* ---- statements about [run]: what any satisfying assignment of the emitted constraints must look like ---- *)
 Section Run.
 Variable c : cfg.
@@ -277,6 +307,73 @@ Theorem lcval_forced x u s' cs : run (lcval x) s = (inl u, s', cs) -> sat cs -> 
 Proof.
   intros R H. apply (wps_sound w _ _ (lcval x) s (fun _ _ => w (npub s + 1) == ew x)) with (s' := s') (cs := cs) (a := u); auto.
   apply lcval_s; [exact G|]. intros s0 _ E. exact E.
+Qed.
+(* C03: the remaining assertions.  Whatever the prover does, an accepted proof implies the asserted relation on the wires. *)
+Theorem assert_rel_forced rel d x y u s' cs : run (assert_rel c rel d x y) s = (inl u, s', cs) -> sat cs -> exists v, 0 <= v < 2 ^ Z.of_nat (nbits c) /\ ew (d x y) == v.
+Proof.
+  intros R H. apply (wps_sound w _ _ (assert_rel c rel d x y) s (fun _ _ => exists v, 0 <= v < 2 ^ Z.of_nat (nbits c) /\ ew (d x y) == v)) with (s' := s') (cs := cs) (a := u); auto.
+  apply assert_rel_s; [exact G|]. intros s0 _ E. exact E.
+Qed.
+Theorem assert_le_forced x y u s' cs : run (assert_le c x y) s = (inl u, s', cs) -> sat cs -> exists v, 0 <= v < 2 ^ Z.of_nat (nbits c) /\ ew y - ew x == v.
+Proof. intros R H. destruct (assert_rel_forced _ _ _ _ _ _ _ R H) as [v [Rv Ev]]. exists v. split; [exact Rv|]. rewrite <- Ev, ew_sub. reflexivity. Qed.
+Theorem assert_gt_forced x y u s' cs : run (assert_gt c x y) s = (inl u, s', cs) -> sat cs -> exists v, 0 <= v < 2 ^ Z.of_nat (nbits c) /\ ew x - ew y - 1 == v.
+Proof. intros R H. destruct (assert_rel_forced _ _ _ _ _ _ _ R H) as [v [Rv Ev]]. exists v. split; [exact Rv|]. rewrite <- Ev, ew_subc, ew_sub. reflexivity. Qed.
+Theorem assert_ge_forced x y u s' cs : run (assert_ge c x y) s = (inl u, s', cs) -> sat cs -> exists v, 0 <= v < 2 ^ Z.of_nat (nbits c) /\ ew x - ew y == v.
+Proof. intros R H. destruct (assert_rel_forced _ _ _ _ _ _ _ R H) as [v [Rv Ev]]. exists v. split; [exact Rv|]. rewrite <- Ev, ew_sub. reflexivity. Qed.
+Theorem assert_eq_forced x y u s' cs : run (assert_eq x y) s = (inl u, s', cs) -> sat cs -> ew x == ew y.
+Proof.
+  intros R H. apply (wps_sound w _ _ (assert_eq x y) s (fun _ _ => ew x == ew y)) with (s' := s') (cs := cs) (a := u); auto.
+  apply assert_eq_s; [exact G|]. intros s0 _ E. exact E.
+Qed.
+Theorem assert_ne_forced x y u s' cs : Oone s -> run (assert_ne x y) s = (inl u, s', cs) -> sat cs -> ~ ew x == ew y.
+Proof.
+  intros O R H. apply (wps_sound w _ _ (assert_ne x y) s (fun _ _ => ~ ew x == ew y)) with (s' := s') (cs := cs) (a := u); auto.
+  apply assert_ne_s; [exact G|exact O|]. intros s0 _ E. exact E.
+Qed.
+Theorem assert_nonzero_forced x u s' cs : Oone s -> run (assert_nonzero x) s = (inl u, s', cs) -> sat cs -> ~ ew x == 0.
+Proof.
+  intros O R H. apply (wps_sound w _ _ (assert_nonzero x) s (fun _ _ => ~ ew x == 0)) with (s' := s') (cs := cs) (a := u); auto.
+  apply assert_nonzero_s; [exact G|exact O|]. intros s0 _ E. exact E.
+Qed.
+(* assert_range(lo, hi): both x - lo and hi - x - 1 are forced into [0, 2^n): for integer-valued wires inside the bitlength range
+   this is lo <= x < hi (the upper bound is exclusive) *)
+Theorem assert_range_forced x lo hi u s' cs : run (assert_range c x lo hi) s = (inl u, s', cs) -> sat cs ->
+  (exists v, 0 <= v < 2 ^ Z.of_nat (nbits c) /\ ew x - ew lo == v) /\ (exists v, 0 <= v < 2 ^ Z.of_nat (nbits c) /\ ew hi - ew x - 1 == v).
+Proof.
+  intros R H. apply (wps_sound w _ _ (assert_range c x lo hi) s (fun _ _ => (exists v, 0 <= v < 2 ^ Z.of_nat (nbits c) /\ ew x - ew lo == v) /\ (exists v, 0 <= v < 2 ^ Z.of_nat (nbits c) /\ ew hi - ew x - 1 == v))) with (s' := s') (cs := cs) (a := u); auto.
+  apply assert_range_s; [exact G|]. intros s0 _ E1 E2. split; assumption.
+Qed.
+Theorem assert_range_int vx lo hi x xlo xhi u s' cs : run (assert_range c x xlo xhi) s = (inl u, s', cs) -> sat cs ->
+  2 ^ (Z.of_nat (nbits c) + 1) <= p -> ew x == vx -> ew xlo == lo -> ew xhi == hi ->
+  - 2 ^ Z.of_nat (nbits c) <= vx - lo < 2 ^ Z.of_nat (nbits c) -> - 2 ^ Z.of_nat (nbits c) <= hi - vx - 1 < 2 ^ Z.of_nat (nbits c) -> lo <= vx < hi.
+Proof.
+  intros R H Hk Ex El Eh R1 R2. destruct (assert_range_forced _ _ _ _ _ _ R H) as [[v1 [Rv1 E1]] [v2 [Rv2 E2]]].
+  assert (P2 : 2 ^ (Z.of_nat (nbits c) + 1) = 2 * 2 ^ Z.of_nat (nbits c)) by (rewrite Z.pow_add_r by lia; change (2 ^ 1) with 2; ring).
+  rewrite Ex, El in E1. rewrite Ex, Eh in E2.
+  destruct (Z_lt_le_dec vx lo) as [L|L].
+  - exfalso. apply (feq_small_false p (v1 - (vx - lo))); [lia|]. rewrite <- E1. apply eq_feq; ring.
+  - split; [exact L|]. destruct (Z_lt_le_dec vx hi) as [L'|L']; [exact L'|]. exfalso.
+    apply (feq_small_false p (v2 - (hi - vx - 1))); [lia|]. rewrite <- E2. apply eq_feq; ring.
+Qed.
+(* != and the remaining connectives on bit wires *)
+Theorem ne_forced x y r s' cs : run (ne x y) s = (inl r, s', cs) -> sat cs -> (ew x == ew y -> ew r == 0) /\ (~ ew x == ew y -> ew r == 1).
+Proof.
+  intros R H. apply (wps_sound w _ _ (ne x y) s (fun r _ => (ew x == ew y -> ew r == 0) /\ (~ ew x == ew y -> ew r == 1))) with (s' := s') (cs := cs); auto.
+  unfold ne. apply wps_bind. apply check_zero_s. intros r0 s0 _ [A B]. cbn [ret wps]. rewrite ew_sub in A, B. unfold bnot. rewrite ew_rsubc. split; intros Exy.
+  - rewrite A; [apply eq_feq; ring|]. rewrite Exy. apply eq_feq. ring.
+  - rewrite B; [apply eq_feq; ring|]. intros Z0. apply Exy. transitivity (ew x - ew y + ew y); [apply eq_feq; ring|]. rewrite Z0. apply eq_feq. ring.
+Qed.
+Theorem bit_or_forced a b r s' cs : run (bit_or a b) s = (inl r, s', cs) -> sat cs -> isbit (ew a) -> isbit (ew b) -> ew r == ew a + ew b - ew a * ew b /\ isbit (ew r).
+Proof.
+  intros R H Ha Hb. apply (wps_sound w _ _ (bit_or a b) s (fun r _ => ew r == ew a + ew b - ew a * ew b /\ isbit (ew r))) with (s' := s') (cs := cs); auto.
+  unfold bit_or. apply wps_bind. apply mul_s. intros m s0 _ Em. cbn [ret wps]. rewrite ew_sub, ew_add.
+  split; [rewrite <- Em; apply eq_feq; ring|]. apply (or_sound p Hp (ew a) (ew b)); try assumption. rewrite <- Em. apply eq_feq. ring.
+Qed.
+Theorem bit_xor_forced a b r s' cs : run (bit_xor a b) s = (inl r, s', cs) -> sat cs -> isbit (ew a) -> isbit (ew b) -> ew r == ew a + ew b - 2 * ew a * ew b /\ isbit (ew r).
+Proof.
+  intros R H Ha Hb. apply (wps_sound w _ _ (bit_xor a b) s (fun r _ => ew r == ew a + ew b - 2 * ew a * ew b /\ isbit (ew r))) with (s' := s') (cs := cs); auto.
+  unfold bit_xor. apply wps_bind. apply mul_s. intros m s0 _ Em. cbn [ret wps]. rewrite ew_scale in Em. rewrite ew_sub, ew_add.
+  split; [rewrite <- Em; apply eq_feq; ring|]. apply (xor_sound p Hp (ew a) (ew b)); try assumption. rewrite <- Em. apply eq_feq. ring.
 Qed.
 End Run.
 End AG.
